@@ -12,8 +12,10 @@ def dedicated_spec(rnd):
     XR and a cheap XR / expensive XB the optimum puts the two nodes next to each other (register-stationary X)."""
     d = gs.gen_spec(rnd, "mm1", levels=2, size_class="tight", costs="tradeoff")
     w = d["workload"]
-    for rv in w["ranks"]:
-        w["ranks"][rv] = rnd.choice([2, 3, 3, 4])
+    rvs = list(w["ranks"])
+    rnd.shuffle(rvs)
+    for rv, pool in zip(rvs, ([2, 3, 4], [2, 3], [2, 3])):      # at most one bound with a two-level divisor chain: <= 2284 trees
+        w["ranks"][rv] = rnd.choice(pool)
     ts = [t["name"] for t in w["einsums"][0]["tensors"]]
     x = rnd.choice(ts)
     others = [t for t in ts if t != x]
@@ -34,7 +36,7 @@ def dedicated_spec(rnd):
     return d
 
 
-def gen_small_specs(rnd, n, tier, costs=None, dedicated=0.2):
+def gen_small_specs(rnd, n, tier, costs=None, dedicated=0.3):
     cases = []
     tries = 0
     while len(cases) < n and tries < 50 * n:
